@@ -320,7 +320,7 @@ class _Names:
     name = base
     while name in self.used or not name:
       self.k += 1
-      name = '%s_%d' % (base, self.k)
+      name = '%s__%d' % (base, self.k)
     self.used.add(name)
     return name
 
@@ -355,7 +355,7 @@ class _SG:
               '%s/%s/%s%d' % (self.scope, d(st.sampled_from(_SCOPES)), o, k),
               '%s.%s%d' % (self.scope, o, k),
               '%s/%s_%d;' % (self.scope, o, k)][style]
-    if self.cfg.get('collide_names') and self.tensors and d(st.integers(0, 9)) == 0:
+    if self.cfg.get('collide_names') and self.tensors and d(st.integers(0, 39)) == 0:
       other = d(st.sampled_from([t['name'] for t in self.tensors]))
       base = other + d(st.sampled_from(['_dequant', '_quantized']))
     return self.names.fresh(base)
@@ -832,9 +832,41 @@ def model_specs(draw, **kw):
   return _clean(spec)
 
 
+def _prune(spec):
+  """Remove tensors no operator or graph input/output refers to (the converter
+  leaves no dangling tensors) and re-index."""
+  remaps = []
+  for sg in spec['subgraphs']:
+    used = set(sg['inputs']) | set(sg['outputs'])
+    for n in sg['nodes']:
+      used.update(t for t in n['in'] + n['out'] if t >= 0)
+    remap, k = {}, 0
+    for i in range(len(sg['tensors'])):
+      if i in used:
+        remap[i] = k
+        k += 1
+    remaps.append(remap)
+  for si, sg in enumerate(spec['subgraphs']):
+    remap = remaps[si]
+    sg['tensors'] = [t for i, t in enumerate(sg['tensors']) if i in remap]
+    for t in sg['tensors']:
+      sh = t.get('share')
+      if sh is not None:
+        if sh[1] in remaps[sh[0]]:
+          t['share'] = [sh[0], remaps[sh[0]][sh[1]]]
+        else:
+          t['share'] = None
+    for n in sg['nodes']:
+      n['in'] = [remap[t] if t >= 0 else -1 for t in n['in']]
+      n['out'] = [remap[t] for t in n['out']]
+    sg['inputs'] = [remap[t] for t in sg['inputs']]
+    sg['outputs'] = [remap[t] for t in sg['outputs']]
+  return spec
+
+
 def _clean(spec):
   """Strip generator-only bookkeeping that is not needed to rebuild."""
-  spec = copy.deepcopy(spec)
+  spec = _prune(copy.deepcopy(spec))
   for sg in spec['subgraphs']:
     for t in sg['tensors']:
       t.pop('role', None)
